@@ -30,7 +30,7 @@ ANCHORS = []
 WORKERS = {"quick": 12, "thorough": 16}
 WATCHDOG = {"quick": 1200, "thorough": 3400}
 REQUIRED = {"pair:A-has-resonance-B-lacks": 5, "pair:A-cartesian-B-not": 3, "pair:crossing-reader-classes": 5, "hash-seeds>=2": 1, "exact-reproducibility-run": 2,
-            "history-length>=3": 2, "same-long-file-through-two-reader-classes-back-to-back": 2, "printing-conversion-after-a-failed-returning-one": 2, "failed-cartesian-read-then-polar-file": 5, "event-type-with-a-special-table-particle-read-after-another-file": 2, "printing-conversion-with-colours-after-a-returning-one": 2, "text-argument-read-after-another-read": 2, "same-amplitudes-under-two-event-orders-in-one-process": 2, "file-converted-again-after-another": 2, "same-bare-resonance-name-different-sub-lines": 2, "fresh-single-runs": 10, **{f"entry:{e}": 3 for e in ENTRIES}, "across-hash-seeds-compared": 3, "all-ordered-file-pairs": 1}
+            "history-length>=3": 2, "same-long-file-through-two-reader-classes-back-to-back": 2, "printing-conversion-after-a-failed-returning-one": 2, "failed-cartesian-read-then-polar-file": 5, "event-type-with-a-special-table-particle-read-after-another-file": 2, "two-reads-through-a-user-reader-class": 2, "printing-conversion-with-colours-after-a-returning-one": 2, "text-argument-read-after-another-read": 2, "same-amplitudes-under-two-event-orders-in-one-process": 2, "file-converted-again-after-another": 2, "same-bare-resonance-name-different-sub-lines": 2, "fresh-single-runs": 10, **{f"entry:{e}": 3 for e in ENTRIES}, "across-hash-seeds-compared": 3, "all-ordered-file-pairs": 1}
 EXHAUSTIVE_NOTE = "all 36 ordered pairs of pool files are run in every tier (entry points rotated over the 25 ordered entry pairs); all ordered triples of 3 files in thorough"
 ASSUMPTIONS = ["inside the fresh interpreters the pure name lookup is memoised per (name, particle-table size); the library's one-time loading of the special particles happens inside each history",
                "the parent cannot instrument the child interpreters with sys.monitoring: anchors are not traced for this property (results are observed at the process boundary)"]
@@ -151,7 +151,7 @@ def canon(result):
     if "text" in result:
         return {"text": canon_text(result["text"])}
     if "intro" in result:
-        return {"read2": result["read2"], "states": result["states"], "intro": canon_text("// Intro\n*/" + result["intro"]) if "constexpr" in result["intro"] else canon_text("'''\n'''" + result["intro"]),
+        return {**{k: result[k] for k in ("particles", "cartesian") if k in result}, "read2": result["read2"], "states": result["states"], "intro": canon_text("// Intro\n*/" + result["intro"]) if "constexpr" in result["intro"] else canon_text("'''\n'''" + result["intro"]),
                 "pars": canon_text(("// Intro\n*/" if "std::" in result["pars"] or "{" in result["pars"] else "'''\n'''") + result["pars"])}
     return {k: v for k, v in result.items() if k != "stdout"}
 
@@ -227,6 +227,8 @@ class Runner:
             ctx.hit("printing-conversion-after-a-failed-returning-one")
         if hist[0][0] == POISON and len(hist) >= 2:
             ctx.hit("failed-cartesian-read-then-polar-file")
+        if sum(1 for _, e in hist if e.startswith("read_user_")) >= 2:
+            ctx.hit("two-reads-through-a-user-reader-class")
         if SPECIAL in files[1:] and files[0] != SPECIAL:
             ctx.hit("event-type-with-a-special-table-particle-read-after-another-file")
         dn = [f for f, _ in hist if f in (0, 5)]
@@ -237,7 +239,7 @@ class Runner:
                 ctx.hit("pair:A-has-resonance-B-lacks")
             if self.models[fa]["cartesian"] == 1 and not self.models[fb]["cartesian"]:
                 ctx.hit("pair:A-cartesian-B-not")
-            cls = {"read": "A", "cpp": "C", "read_cpp": "C", "py": "P", "read_py": "P", "cpp_print": "C", "py_print": "P", "read_cpp_text": "C", "read_py_text": "P"}
+            cls = {"read_user_cpp": "UC", "read_user_py": "UP", "read_user_base": "UA", "read": "A", "cpp": "C", "read_cpp": "C", "py": "P", "read_py": "P", "cpp_print": "C", "py_print": "P", "read_cpp_text": "C", "read_py_text": "P"}
             if cls[ea] != cls[eb]:
                 ctx.hit("pair:crossing-reader-classes")
         color = any(e.endswith("_print") for _, e in hist)
@@ -326,6 +328,10 @@ def run(ctx):
         jobs.append(([[0, "read"], [SPECIAL, "read"], [SPECIAL, "read_cpp"]], 0, "special-table-event-type"))
         jobs.append(([[1, "read_py"], [SPECIAL, "read_cpp"]], 1, "special-table-event-type"))
         jobs.append(([[SPECIAL, "read_py"], [2, "cpp"], [SPECIAL, "read"]], 0, "special-table-event-type"))
+        # a user's reader class derived from a converter (or from the base reader): a cartesian file, then polar ones; files with other resonances
+        jobs.append(([[2, "read_user_cpp"], [0, "read_user_cpp"], [1, "read_user_cpp"]], 0, "user-reader-class"))
+        jobs.append(([[4, "read_user_py"], [5, "read_user_py"]], 1, "user-reader-class"))
+        jobs.append(([[2, "read_user_base"], [3, "read_user_base"], [0, "read_user_cpp"]], 0, "user-reader-class"))
         for e in (["py", "cpp"] if ctx.quick else ENTRIES):
             jobs.append(([[3, e], [1, e]], 0, "spline-then-no-constants"))      # file 3 has spline constants, file 1 has no constant line at all
         if not ctx.quick:
